@@ -227,6 +227,16 @@ def fasync_bases():
                     "b",
                 )
                 bases.append((f"fan.{'B' if bl else 'N'}{ji[0]}{'s' if sk else ''}-{'B' if bl2 else 'N'}{ji2[0]}.{ra}-{rc}-{rb}", s))
+    # fan-in with advance=True on the consumer: one blocking and one non-blocking input (the schedule term must stay)
+    for (ra, rc, rb) in [(16, 8, 8), (16, 16, 16)]:
+        for (nomb, expb) in [(1, 1), (1, 4)]:  # blocking message arriving at / before its expected time
+            for sched in ("FREQ", "PHASE"):
+                s = spec(
+                    {"a": node(ra, 1), "c": node(rc, 1), "b": node(rb, 1, sched, advance=True)},
+                    [{"o": "a", "n": "b", "blocking": True, "jitter": "LATEST", "skip": False, "window": 1, "comm": d(nomb, (), expb)}, edge("c", "b", False, "LATEST", False, 1, 1)],
+                    "b",
+                )
+                bases.append((f"fanadv.{ra}-{rc}-{rb}.d{nomb}e{expb}.{sched[0]}", s))
     # 3-cycle a -> b -> c ~> a
     for (bl, ji, _) in _conn_policies(allow_skip=False):
         for (bl2, ji2, _) in _conn_policies(allow_skip=False):
